@@ -259,6 +259,10 @@ class World:
                 (o.cname, tuple(e.tag for e in o.model)) if len(o.model) <= 3
                 else (o.cname, len(o.model), o.model[0].tag, o.model[-1].tag))
         self.probe('op_' + op + ':' + out.get('r', '?').split(':')[0])
+        if op != 'drop':
+            self.recent = (getattr(self, 'recent', ()) + (op,))[-3:]
+            self.stats.setdefault('op_bigrams', set()).add(self.recent[-2:])
+            self.stats.setdefault('op_trigrams', set()).add(self.recent)
         if self.last_raised and out.get('r') == 'ok' and op not in ('new', 'drop'):
             self.probe('p_rejected_then_accepted')
         self.last_raised = out.get('r', '').startswith('raise')
@@ -605,6 +609,9 @@ def summarise(js, raw):
         'op_outcomes': opsd,
         'abstract_states': js.get('abstract_states', 0),
         'abstract_transitions': js.get('abstract_transitions', 0),
+        'op_kind_bigrams': js.get('op_bigrams', 0),
+        'op_kind_trigrams': js.get('op_trigrams', 0),
+        'op_kinds': 16,
         'slice_shapes_exercised': js.get('slice_shapes', 0),
         'slice_shapes_in_domain': 8 * 16 * 16 * 7,
         'classes': ALL_CLASSES,
@@ -612,6 +619,9 @@ def summarise(js, raw):
     }
 
 
+MUST_FIRE = ['rejected_bad_index', 'rejected_operand', 'wrong_class_object', 'wrong_class_literal',
+             'multi_valued', 'from_list_wrong_class', 'from_list_multi_valued', 'self_extend',
+             'operand_shares_element_with_receiver', 'slice_negative_step', 'slice_empty_result']
 PROBES = ['slice_empty_result', 'slice_negative_step', 'slice_bound_beyond_len',
           'slice_negative_bound', 'self_extend', 'self_operand',
           'operand_shares_element_with_receiver', 'pop_empty', 'insert_beyond_end',
